@@ -59,7 +59,28 @@ type violation struct {
 	Key    string
 	What   string
 	Replay string
+	Case   json.RawMessage
 }
+
+// ReportedViolation is a violation recorded by this run (used when a child process hands its findings to a parent).
+type ReportedViolation struct {
+	Key, What string
+	Replay    json.RawMessage
+}
+
+// Reported returns the violations recorded so far.
+func (r *Run) Reported() []ReportedViolation {
+	r.mu.Lock()
+	defer r.mu.Unlock()
+	out := make([]ReportedViolation, len(r.violations))
+	for i, v := range r.violations {
+		out[i] = ReportedViolation{v.Key, v.What, v.Case}
+	}
+	return out
+}
+
+// Capped reports whether the run was cut short.
+func (r *Run) Capped() bool { return r.capped.Load() }
 
 type knownFinding struct {
 	Status   string `json:"status"`
@@ -219,7 +240,8 @@ func (r *Run) Violation(key, what string, replay any, recheck func() bool) {
 	}
 	os.WriteFile(path, body, 0o644)
 	abs, _ := filepath.Abs(path)
-	r.violations = append(r.violations, violation{Key: key, What: what, Replay: abs})
+	caseJSON, _ := json.Marshal(replay)
+	r.violations = append(r.violations, violation{Key: key, What: what, Replay: abs, Case: caseJSON})
 	fmt.Fprintf(os.Stderr, "violation detail property=%s key=%s :: %s\n", r.Prop, trunc(key, 300), trunc(what, 600))
 }
 
